@@ -186,6 +186,20 @@ theorem rawFromU32_lt : ∀ s ∈ colorTable, ∀ v, s.rawFromU32 v < 2 ^ s.rawB
   each_color hs
   all_goals (intro v; color_norm; color_close)
 
+/-- exact: `from_u32` keeps the low `BITS_PER_PIXEL` bits of its argument and drops everything above
+(bits beyond the storage type by the `as Storage` cast, bits beyond `BITS_PER_PIXEL` by `MASK`) -/
+theorem rawFromU32_eq : ∀ s ∈ colorTable, ∀ v, s.rawFromU32 v = v % 2 ^ s.rawBpp := by
+  intro s hs
+  each_color hs
+  all_goals (intro v; color_norm; color_close)
+
+/-- any `u32` -> raw -> colour -> raw: the low `usedBits` bits of the argument, nothing else -/
+theorem u32_raw_color_raw : ∀ s ∈ colorTable, ∀ v,
+    s.toRaw (s.fromRaw (s.rawFromU32 v)) = v % 2 ^ s.usedBits := by
+  intro s hs
+  each_color hs
+  all_goals (intro v; color_norm; color_close)
+
 /-- a valid RGB value is `new` of its channels -/
 theorem valid_eq_new : ∀ s ∈ colorTable, s.isRgb = true → ∀ c, s.Valid c →
     c = s.rgbNew (s.chanR c) (s.chanG c) (s.chanB c)
